@@ -36,6 +36,10 @@ LAYOUTS = [
     dict(shapes=[[2, 2, 3], [3]], max_dim=2, merge=False),
     dict(shapes=[[5], [3]], max_dim=3, merge=True),
     dict(shapes=[[], [3]], max_dim=3, merge=False),
+    # other preconditioners / schedules behind the same grafting contract
+    dict(shapes=[[4, 3], [3]], max_dim=1024, merge=False, extra={"precond": ["soap", {"ignored": [0]}]}),
+    dict(shapes=[[4, 3], [3]], max_dim=2, merge=False, extra={"precond": ["soap", {}], "freq": 2}),
+    dict(shapes=[[4, 3], [3]], max_dim=3, merge=True, extra={"freq": 3}),
 ]
 
 
@@ -65,7 +69,12 @@ def targets(tier):
 
 def shampoo_cfg(tg, lay, start, pdtype, seed, with_graft=True):
     t = tg["t"]
+    lay = dict(lay)
+    extra = lay.pop("extra", {})
     kw = dict(lr=tg["lr"], wd=tg.get("wd", 0.0), eps=1e-1, freq=1, start=start, pdtype=pdtype, prec_dtype="f64" if pdtype == "f64" else "f32", seed=seed, **lay)
+    kw.update(extra)
+    if extra.get("freq", 1) > 1:
+        kw["start"] = extra["freq"] + 1  # start >= frequency but deliberately NOT a multiple of it
     if t == "sgd":
         kw.update(betas=[0.0, 1.0], momentum=tg["momentum"], nesterov=tg["nesterov"], decoupled=False, graft=["sgd"])
     elif t == "adagrad":
@@ -107,11 +116,13 @@ def work(tier, seed):
             if ch:
                 if tier == "thorough":
                     units.append({"layout": lay, "targets": ch, "depth": depth, "warmups": [2, 4], "dtypes": ["f64", "f32"]})
+                elif "extra" in lay:
+                    units.append({"layout": lay, "targets": ch[:2], "depth": 3, "warmups": [2], "dtypes": ["f64"]})
                 else:
                     units.append({"layout": lay, "targets": ch, "depth": 3, "warmups": [2], "dtypes": ["f64"]})
                     units.append({"layout": lay, "targets": ch[:1], "depth": 3, "warmups": [2], "dtypes": ["f32"]})
                     longer = [tg for tg in ch if tg.get("momentum", 0) or tg["t"] in ("rmsprop", "adagrad")][:2]
-                    if longer:
+                    if longer and "extra" not in lay:
                         units.append({"layout": lay, "targets": longer, "depth": 4, "warmups": [4], "dtypes": ["f64"]})
     return units
 
@@ -121,6 +132,7 @@ def check(tg, lay, start, pdtype, hist, seed, zero_at=None):
     import torch
 
     cfg = shampoo_cfg(tg, lay, start, pdtype, seed)
+    start = cfg["start"]
     params, opt = seq.build(cfg)
     tparams = [torch.nn.Parameter(p.detach().clone()) for p in params]
     twin = make_twin(tg, tparams)
@@ -196,6 +208,30 @@ def check(tg, lay, start, pdtype, hist, seed, zero_at=None):
     return msgs[:3], digests
 
 
+def finding_signature(case, msg):
+    """F3: a block whose parameter had no gradient at any refresh step so far still has all-zero inverse roots (they are
+    recomputed only for blocks with a gradient at a refresh step), so its Shampoo direction - and hence its update - is
+    exactly zero although the grafted method's step is not.  Only possible with precondition_frequency > 1."""
+    import re
+
+    m = re.search(r"step (\d+) \(group step \d+ >= start \d+\).*of parameter (\d+): \|delta\| = 0\.000000e\+00 but the grafted", msg)
+    if not m or case.get("zero_at"):
+        return None
+    t_fail, pidx = int(m.group(1)), int(m.group(2))
+    cfg = shampoo_cfg(case["target"], case["layout"], case["start"], case["pdtype"], 0)
+    freq, start = cfg["freq"], cfg["start"]
+    if freq <= 1:
+        return None
+    g = 0
+    for t, mask in enumerate(case["hist"][: t_fail + 1]):
+        if any(mask):
+            g += 1
+            refresh = g == start or (g > start and g % freq == 0)
+            if refresh and mask[pidx]:
+                return None  # the block was refreshed: a zero update would be something else
+    return "shampoo-roots-never-computed:block-absent-at-every-refresh-so-far"
+
+
 def run_unit(unit):
     res = {"evals": 0, "transitions": 0, "states": set(), "outcomes": set(), "nontrivial_count": 0, "violations": [], "samples": [],
            "stats": {"warmup_comparisons": 0, "norm_histories": 0}}
@@ -204,7 +240,10 @@ def run_unit(unit):
         adam = tg["t"] in ("adam", "adamw")
         masks = [[1, 1], [0, 0]] if adam else seq.all_masks(2)
         for start in unit["warmups"]:
-            depth = min(unit["depth"], start + 2)
+            eff = shampoo_cfg(tg, lay, start, "f64", 0)["start"]
+            if eff != start and start != unit["warmups"][0]:
+                continue
+            depth = min(unit["depth"], eff + 2) if eff == start else eff + 1
             for pdtype in unit["dtypes"]:
                 for h in itertools.product(masks, repeat=depth):
                     hist = [list(m) for m in h]
